@@ -13,8 +13,18 @@ Definition descs (s : st) : list mdesc := map md (mods s).
 Definition pok (ds : list mdesc) (m i : nat) : Prop :=
   enable (nth m ds d0) = true /\ In i (polled_params (nth m ds d0)).
 
+(* module m is polled at all (enablePoll) *)
+Definition mok (ds : list mdesc) (m : nat) : Prop := enable (nth m ds d0) = true.
+
+(* what the poller may add to the log: reads of polled parameters of polled modules, doPoll (and the reads made inside
+   it) of polled modules only *)
 Definition okread (ds : list mdesc) (e : levent) : Prop :=
-  match e with LRead _ m i => pok ds m i | _ => True end.
+  match e with
+  | LRead _ m i => pok ds m i
+  | LMain _ m => mok ds m
+  | LMRead _ m _ => mok ds m
+  | _ => True
+  end.
 
 Definition nostop (l : list (Z * action)) : Prop := ~ In AStop (map snd l).
 
@@ -199,24 +209,27 @@ Proof.
   eapply ext_trans; [exact E0|]. eapply ext_trans; [exact H1|apply ext_poll_result].
 Qed.
 
-Lemma ext_main_reads : forall W m l s, ext s (fst (main_reads W s m l)).
+Lemma ext_main_reads : forall W m l s, mok (descs s) m -> ext s (fst (main_reads W s m l)).
 Proof.
-  intros W m l; induction l as [|i l IH]; intros s; simpl; [apply ext_refl|].
-  assert (E0 : ext s (emit s (LMRead (now s) m i))) by (apply ext_emit; exact I).
+  intros W m l; induction l as [|i l IH]; intros s Hm; simpl; [apply ext_refl|].
+  assert (E0 : ext s (emit s (LMRead (now s) m i))) by (apply ext_emit; exact Hm).
   pose proof (ext_read_wrapped W (emit s (LMRead (now s) m i)) m i) as H1.
   destruct (read_wrapped W (emit s (LMRead (now s) m i)) m i) as [s1 [e|]]; simpl in *.
   - eapply ext_trans; [exact E0|exact H1].
   - eapply ext_trans; [exact E0|]. eapply ext_trans; [exact H1|apply IH].
+    destruct (ext_trans _ _ _ E0 H1) as (D & _). unfold mok. rewrite D. exact Hm.
 Qed.
 
-Lemma ext_call_main : forall W s m, ext s (call_main W s m).
+Lemma ext_call_main : forall W s m, mok (descs s) m -> ext s (call_main W s m).
 Proof.
-  intros W s m. unfold call_main.
-  assert (E0 : ext s (emit s (LMain (now s) m))) by (apply ext_emit; exact I).
+  intros W s m Hm. unfold call_main.
+  assert (E0 : ext s (emit s (LMain (now s) m))) by (apply ext_emit; exact Hm).
   pose proof (ext_body W (emit s (LMain (now s) m))) as H1.
   destruct (body W (emit s (LMain (now s) m))) as [s1 o]. simpl in H1.
   destruct o.
-  - pose proof (ext_main_reads W m (mainreads (md (get_mod s1 m))) s1) as H2.
+  - assert (Hm1 : mok (descs s1) m).
+    { destruct (ext_trans _ _ _ E0 H1) as (D & _). unfold mok. rewrite D. exact Hm. }
+    pose proof (ext_main_reads W m (mainreads (md (get_mod s1 m))) s1 Hm1) as H2.
     destruct (main_reads W s1 m _) as [s2 r]. simpl in H2.
     eapply ext_trans; [exact E0|]. eapply ext_trans; [exact H1|].
     eapply ext_trans; [exact H2|apply ext_poll_result].
@@ -224,11 +237,19 @@ Proof.
 Qed.
 
 (* ------------------------------------------------------------ main loop *)
+Lemma md_get_mod : forall s m, md (get_mod s m) = nth m (descs s) d0.
+Proof. intros s m. unfold get_mod, descs, d0. rewrite map_nth. reflexivity. Qed.
+
+(* doPoll is called for modules with enablePoll only: the due test is guarded by the existence of a PollInfo *)
 Lemma ext_main_step : forall W s m, ext s (main_step W s m).
 Proof.
   intros W s m. unfold main_step. destruct (negb (alive s)); [apply ext_refl|].
-  destruct (_ && _); [|apply ext_refl].
-  eapply ext_trans; [apply ext_upd_mod|apply ext_call_main]. intros x; reflexivity.
+  destruct (_ && _) eqn:G; [|apply ext_refl].
+  apply andb_true_iff in G. destruct G as [G _]. rewrite md_get_mod in G.
+  assert (E1 : ext s (upd_mod s m (fun y => m_set_last_main y (new_last_main (now s) (interval y)))))
+    by (apply ext_upd_mod; intros x; reflexivity).
+  eapply ext_trans; [exact E1|apply ext_call_main].
+  destruct E1 as (D & _). unfold mok. rewrite D. exact G.
 Qed.
 
 Lemma ext_fold_main : forall W l s, ext s (fold_left (main_step W) l s).
@@ -435,9 +456,6 @@ Qed.
 Definition ph_st (p : phase) : st := match p with PGo s | PCom s | PCrash s => s end.
 Definition is_crash (p : phase) : bool := match p with PCrash _ => true | _ => false end.
 
-Lemma md_get_mod : forall s m, md (get_mod s m) = nth m (descs s) d0.
-Proof. intros s m. unfold get_mod, descs, d0. rewrite map_nth. reflexivity. Qed.
-
 Lemma init_module_ok : forall W s m,
   let p := init_module W s m in
   ext s (ph_st p) /\ topoll (ph_st p) = topoll s /\ is_crash p = false.
@@ -565,6 +583,31 @@ Qed.
 
 Lemma descs_init : forall t0 ds a, descs (init_state t0 ds a) = map fst ds.
 Proof. intros. unfold descs, init_state; simpl. rewrite map_map. apply map_ext. intros [d p]; reflexivity. Qed.
+
+(* what the poller adds to the log in any run is permitted by the descriptors *)
+Lemma log_only_permitted : forall W n t0 ds a e,
+  In e (log (run W n (init_state t0 ds a))) -> okread (map fst ds) e.
+Proof.
+  intros W n t0 ds a e H. unfold run in H.
+  set (s0 := init_state t0 ds a) in *.
+  destruct (startup_ok W s0) as (D0 & T0 & _ & L0 & _).
+  assert (Ht : topoll_ok (startup W s0)).
+  { unfold topoll_ok. rewrite T0. simpl. intros m' i' []. }
+  destruct (turns_ok W n _ Ht) as (_ & _ & _ & _ & L1).
+  rewrite <- descs_init with (t0 := t0) (a := a). fold s0.
+  destruct (L1 _ H) as [H1|H1].
+  - destruct (L0 _ H1) as [H2|H2]; [simpl in H2; contradiction|exact H2].
+  - rewrite D0 in H1. exact H1.
+Qed.
+
+(* doPoll - and with it the reads made inside doPoll - is only ever called for modules with enablePoll *)
+Lemma mains_only_enabled : forall W n t0 ds a t m,
+  In (LMain t m) (log (run W n (init_state t0 ds a))) \/
+  (exists i, In (LMRead t m i) (log (run W n (init_state t0 ds a)))) ->
+  mok (map fst ds) m.
+Proof.
+  intros W n t0 ds a t m [H|[i H]]; exact (log_only_permitted W n t0 ds a _ H).
+Qed.
 
 (* only polled parameters are ever read by the poller *)
 Lemma reads_only_polled : forall W n t0 ds a t m i,
